@@ -3,4 +3,4 @@ From Coq Require Import Extraction ExtrOcamlBasic ExtrOcamlString ZArith List St
 From Acme.C16 Require Import Model.
 From Acme.C15 Require Import Model.
 Extraction Language OCaml.
-Extraction "extracted/c15_model.ml" md_raw save_raw dbc_raw walk to_net blocks o_id o_rev o_rot.
+Extraction "extracted/c15_model.ml" md_raw save_raw dbc_raw walk to_net blocks o_id o_rev o_rot wf_netb clear_spaces.
